@@ -236,12 +236,8 @@ class GraphNode(HyperNode):
         Returns:
             Original name used in the inner graph.
         """
-        current = param
-        # Walk rename history in reverse to find original
-        for entry in reversed(self._rename_history):
-            if entry.kind == "inputs" and entry.new == current:
-                current = entry.old
-        return current
+        reverse_map = build_reverse_rename_map(self._rename_history, "inputs")
+        return reverse_map.get(param, param)
 
     def map_inputs_to_params(self, inputs: dict[str, Any]) -> dict[str, Any]:
         """Map renamed input names back to original inner graph parameter names.
